@@ -41,6 +41,8 @@ type faultCase struct {
 	// expectation
 	MustFail bool     `json:"must_fail"`
 	Mention  []string `json:"mention,omitempty"` // the error must contain one of these
+	// Dir: the configured template directory when it is not "t" (a directory that does not exist, or is no directory)
+	Dir string `json:"dir,omitempty"`
 }
 
 func init() {
@@ -383,7 +385,11 @@ func c18Fault(c *harness.Check, cs faultCase) string {
 	var failure string
 	pi := c.Guard("json", mustJSON(cs), func() {
 		textwire.VerifReset()
-		tpl, lerr := textwire.NewTemplate(&config.Config{TemplateDir: "t", TemplateExt: ".tw"})
+		dir := "t"
+		if cs.Dir != "" {
+			dir = cs.Dir
+		}
+		tpl, lerr := textwire.NewTemplate(&config.Config{TemplateDir: dir, TemplateExt: ".tw"})
 		if (tpl == nil) == (lerr == nil) {
 			failure = fmt.Sprintf("NewTemplate returned (%v, %v): neither a template nor an error alone", tpl, lerr)
 			return
@@ -450,7 +456,7 @@ func c18ValidTree(rt *rapid.T) (tree.Tree, map[string]string) {
 
 func TestC18_FaultEnumeration(t *testing.T) {
 	c := harness.New(t, "C18", "fault-enumeration",
-		"for generated valid directories (names plain or with percent signs; page + layout + component + independent page + three more components used in a branch of an @if / @elseif / @else, in the body or the @else of an @each / @for, or in the @else of a loop nested in a loop pass): every file x {deleted, truncated at every byte prefix, replaced by garbage (lexeme soup), dangling symbolic link, directory in its place}. NewTemplate must return without panic or hang either (nil, error) or (template, nil). It must fail with an error naming the damaged file's path when that file is syntactically wrong by itself (decided by parsing it alone) or unreadable, and naming the layout/component (by name or path) when such a file is absent. Non-trivial: the fault is in a layout or component. Every (file, operator, prefix) of each generated tree is enumerated.")
+		"for generated valid directories (names plain or with percent signs; page + layout + component + independent page + three more components used in a branch of an @if / @elseif / @else, in the body or the @else of an @each / @for, or in the @else of a loop nested in a loop pass): every file x {deleted, truncated at every byte prefix, replaced by garbage (lexeme soup), dangling symbolic link, directory in its place}. a template directory that does not exist, is misspelled or leads through a regular file; NewTemplate must return without panic or hang either (nil, error) or (template, nil). It must fail with an error naming the damaged file's path when that file is syntactically wrong by itself (decided by parsing it alone) or unreadable, and naming the layout/component (by name or path) when such a file is absent. Non-trivial: the fault is in a layout or component. Every (file, operator, prefix) of each generated tree is enumerated.")
 	defer c.Finish()
 	alpha := c08Alphabet()
 	runRapid(t, c, 12, 180, func(rt *rapid.T) {
@@ -477,6 +483,11 @@ func TestC18_FaultEnumeration(t *testing.T) {
 				return []string{strings.TrimSuffix(path.Base(p), ".tw")}
 			}
 			return nil
+		}
+		// the template directory itself is absent, misspelled, or a path through a regular file: loading fails and says which directory
+		anyFile := base.Paths()[0]
+		for _, d := range []string{"tt", "T", "t/gone", "t2/t", anyFile, anyFile + "/views"} {
+			run(faultCase{Tree: base, Faulty: d, Op: "template-directory-unusable", MustFail: true, Mention: []string{d}, Dir: d})
 		}
 		for _, p := range base.Paths() {
 			content := base[p].Content
